@@ -102,6 +102,7 @@ def samples(ctx):
                 fv = f(x)
                 shape_ok = bool(gv.shape == x.shape)
                 scalar_ok = bool((np.isscalar(fv) or np.ndim(fv) == 0) and not np.iscomplexobj(fv))
+                U = max(float(np.max(np.abs(gv))) if gv.size else 0.0, 1e-6 * (1.0 + abs(float(fv))))   # size of the gradient here
                 for i in range(n):
                     D = []
                     for k in (1, 2, 3):
@@ -110,10 +111,9 @@ def samples(ctx):
                         xm[i] -= k * h
                         D.append(float(f(xp)) - float(f(xm)))
                     G = float(gv.ravel()[i]) if gv.size > i else 0.0
-                    big = max(1.0, abs(G), abs(D[0]) * 64.0, abs(D[1]) * 32.0, abs(D[2]) * 22.0)
-                    S = 2 ** int(np.floor(np.log2(2 ** 20 / big)))
-                    S = max(S, 1)
-                    ev.append({"s": int(S), "d1": int(round(D[0] * S)), "d2": int(round(D[1] * S)), "d3": int(round(D[2] * S)),
+                    big = max(U / 1024.0, abs(G), abs(D[0]) * 64.0, abs(D[1]) * 32.0, abs(D[2]) * 22.0)
+                    S = 2.0 ** int(np.floor(np.log2(2 ** 20 / big)))
+                    ev.append({"s": 1, "u": max(1, int(round(U * S))), "d1": int(round(D[0] * S)), "d2": int(round(D[1] * S)), "d3": int(round(D[2] * S)),
                                "g": int(round(G * S)), "shapeOk": shape_ok, "scalarOk": scalar_ok})
                     pts.append((x.tolist(), i))
             traces.append(ev)
